@@ -181,6 +181,18 @@ def state_snapshot():
                     globs["%s.%s" % (mname, k)] = digest(snap(v))
                 except Exception:
                     globs["%s.%s" % (mname, k)] = "unsnappable"
+    # process-wide settings of the dependencies that a call could leave changed (diagnostics only)
+    try:
+        import matplotlib as mpl
+        import numpy as np
+        import pandas as pd
+
+        globs["env.numpy.geterr"] = digest(sorted(np.geterr().items()))
+        globs["env.numpy.printoptions"] = digest(sorted((k, repr(v)) for k, v in np.get_printoptions().items()))
+        globs["env.matplotlib.rcParams"] = digest(sorted((k, repr(v)) for k, v in mpl.rcParams.items()))
+        globs["env.pandas.mode.chained_assignment"] = repr(pd.get_option("mode.chained_assignment")) if "chained_assignment" in dir(pd.options.mode) else ""
+    except Exception:
+        pass
     return fns, globs
 
 
